@@ -385,8 +385,9 @@ func (r *vC01Run) step(id int, step map[string]interface{}) vEvent {
 			r.stopTails()
 			o := vInt(step, "o")
 			args["o"] = o
+			hadRecords := r.l.OldestOffset() != -1
 			obs.Err = vErrClass(r.l.Truncate(o))
-			emptied := r.l.OldestOffset() == -1
+			emptied := hadRecords && r.l.OldestOffset() == -1
 			for k, v := range r.rd {
 				// (a truncation that empties the log ends every reader, see CommitLog.tla)
 				if v.Alive && (v.Next >= o || emptied) {
